@@ -350,3 +350,34 @@ def urls(ctx):
     else:
         ctx.inconclusive.append("vacuity: no URLs computed")
     ctx.sample({"paths": E.paths})
+
+
+
+# ---------------------------------------------------------------------------------------
+# O3: the copied sources (file-system stub shared with C19, see fv/props/c19.py)
+# ---------------------------------------------------------------------------------------
+@obligation("C10", "O3.source-file-copies", engine="SX+file-system stub", timeout=900)
+def source_copies(ctx):
+    """Documentation.writeout with incl_src on the in-memory file system: every source file of the project (Fortran files and extra file
+    types, in sub-directories too) is served at src/<name> with its own bytes - the target of the 'Source File' link of its entities"""
+    from fv.props import c19
+    ctx.known("C10-src-copy-same-basename", replay_same_basename)
+    c19.writeout_obligation(ctx, "sources")
+
+
+def replay_same_basename(w):
+    """real run: two source files with the same base name in different directories"""
+    import os, shutil
+    from fv import fordrun
+    files = {"a/util.f90": "module ma\n!! in a\nend module ma\n", "b/util.f90": "module mb\n!! in b\nend module mb\n"}
+    d, outdir, rc, log = fordrun.run_ford(files, {"incl_src": "true", "search": "false"})
+    try:
+        served = None
+        p = os.path.join(outdir, "src", "util.f90")
+        if os.path.exists(p):
+            served = open(p).read()
+        copies = sorted(os.listdir(os.path.join(outdir, "src"))) if os.path.isdir(os.path.join(outdir, "src")) else []
+    finally:
+        shutil.rmtree(d, ignore_errors=True)
+    bad = rc == 0 and len(copies) < 2
+    return bad, {"sources": sorted(files), "copied to src/": copies, "src/util.f90 serves": (served or "")[:20]}
